@@ -17,7 +17,7 @@ func init() {
 		Decided: []string{
 			"a tick at t reads entries as Next(t+c) with a constant -60s ≤ c < 0 and invokes an entry only when its Next is not after t; a `break` on the first future entry is preceded by sorting on Next; the next tick is computed from the previous tick (not from the wall clock) as +1 minute truncated to the minute; the cron parser has no seconds field (C09.tick)",
 			"the start guard: not running, and last start truncated to the minute before the scheduled minute (C09.start-guard); stop only when running, restart unconditionally (C09.stop-guard)",
-			"entries built from Schedule / StopSchedule / RestartSchedule carry the matching kind, Invoke maps each kind to the same-named job method, suspended DAGs contribute no entry (C09.entry-table)",
+			"entries built from Schedule / StopSchedule / RestartSchedule carry the matching kind, Invoke maps each kind to the same-named job method, suspended DAGs contribute no entry (C09.entry-table); the suspend flag is looked up with the key it is written with: the file id derived from the definition's Location, never DAG.Name (C09.suspend-key)",
 			"a file that fails to load neither ends directory initialisation nor the watcher loop, and the watcher releases its mutex on every way round the loop (C09.bad-file-isolation); the metadata loader is panic-free for decoded pointers (C13, shared obligation evaluated there)",
 		},
 		NotDec: []string{"cron matching over the calendar (robfig/cron)", "that no minute is missed or doubled over whole tick sequences and restarts", "fsnotify delivery; timer behaviour under clock jumps"},
@@ -29,6 +29,7 @@ func runC09(e *Env) {
 	c09StartGuard(e)
 	c09StopGuard(e)
 	c09EntryTable(e)
+	c09SuspendKey(e)
 	c09BadFile(e)
 }
 
@@ -287,6 +288,52 @@ func c09EntryTable(e *Env) {
 		m := ci.Common().Method.Name()
 		ok := len(set) == 1 && set[ConstVal(et, "entryType"+m)]
 		r.Check(ok, "Invoke: Job."+m+" only for entryType"+m, e.InstrPos(ci), "job method "+m+" is invoked for entry kinds {"+strings.Join(set.Names(et), ",")+"}")
+	}
+}
+
+// c09SuspendKey: the suspend flag is written keyed by the DAG's file id (the
+// API's dagId path parameter); every reader must ask with a key derived the
+// same way - the base name of the definition's Location without extension -
+// never with DAG.Name, which a definition may override with `name:`.
+func c09SuspendKey(e *Env) {
+	r := e.R
+	r.Rule("C09.suspend-key", "AGR/VF", "suspend flag read with the key it is written with (file id, not DAG.Name)", 3)
+	tr := &ir.Tracer{C: e.C, Through: ir.StringThrough, Descend: e.repoDescend}
+	n := 0
+	for _, f := range e.RepoFuncsSorted() {
+		for _, ci := range ir.CallsIn(f, func(c *ssa.CallCommon) bool {
+			return c.IsInvoke() && (c.Method.Name() == "IsSuspended" || c.Method.Name() == "ToggleSuspend") &&
+				strings.HasPrefix(ir.NamedType(c.Value.Type()), e.P.Pkg(dschedRel).Pkg.Path()[:strings.Index(e.P.Pkg(dschedRel).Pkg.Path(), "/internal/")])
+		}) {
+			n++
+			var bad []string
+			fromLocation := false
+			for _, l := range tr.Trace(ci.Common().Args[0]) {
+				switch l.Kind {
+				case "const", "param":
+				case "field":
+					switch {
+					case strings.HasSuffix(l.Name, "Location"):
+						fromLocation = true
+					case strings.HasSuffix(l.Name, "DagID"):
+					default:
+						bad = append(bad, "field "+l.Name)
+					}
+				default:
+					bad = append(bad, l.Kind+" "+l.Name)
+				}
+			}
+			okKey := len(bad) == 0
+			if rootFn(f).Package() == e.P.Pkg(dschedRel) {
+				okKey = okKey && fromLocation // the daemon has only the loaded DAG to derive the id from
+			}
+			r.Check(okKey, ShortFn(f)+": "+ci.Common().Method.Name()+" keyed by the DAG's file id", e.InstrPos(ci),
+				"the suspend flag is looked up with a key that is not the DAG's file id (base name of its Location): a DAG whose definition sets its own `name:` and was suspended through the UI/API is still scheduled (or a different DAG's flag is honoured)",
+				"key sources other than id parameters / Location / dagId: "+strings.Join(bad, ", "))
+		}
+	}
+	if n == 0 {
+		r.Unknown("suspend flag accesses", "-", "no IsSuspended / ToggleSuspend call found")
 	}
 }
 
